@@ -2,6 +2,7 @@ package pathdbsim
 
 import (
 	"fmt"
+	"os"
 	"sort"
 
 	"github.com/ethereum/go-ethereum/common"
@@ -65,17 +66,21 @@ func (rn *runner) checkRecoverable() (*simcore.Violation, []*state) {
 	if len(rec) > 0 {
 		rn.probe("recoverable-roots")
 	}
+	if tail > 0 {
+		rn.probe("history-tail-pruned")
+	}
 	return nil, rec
 }
 
 // recoverOne calls Recover(st.root) and judges the result against the model.
 func (rn *runner) recoverOne(st *state) *simcore.Violation {
 	var (
-		tail    uint64
-		claimed bool
+		tail, ttail0 uint64
+		tok0         bool
+		claimed      bool
 	)
 	if v := guard("recoverable", func() {
-		tail, _, _, _, _, _ = rn.w.db.VerifHistory()
+		tail, _, _, ttail0, _, tok0 = rn.w.db.VerifHistory()
 		claimed = rn.w.db.Recoverable(st.root)
 	}); v != nil {
 		return v
@@ -88,7 +93,11 @@ func (rn *runner) recoverOne(st *state) *simcore.Violation {
 		return simcore.Violf("recoverable-mismatch", "Recoverable(state #%d root %x) = %v, expected %v (id=%d, disk layer id %d, history tail %d)", st.idx, st.root[:4], claimed, want, k, diskID, tail)
 	}
 	if !claimed {
-		// must fail and change nothing
+		// must fail and change nothing (let a background flush finish first, so
+		// that any write seen below is the refused call's)
+		if v := guard("waitflush", func() { rn.w.db.VerifWaitFlush() }); v != nil {
+			return v
+		}
 		kvLen, evLen := rn.w.kv.LogLen(), 0
 		if rn.w.rec != nil {
 			evLen = rn.w.rec.Len()
@@ -128,6 +137,20 @@ func (rn *runner) recoverOne(st *state) *simcore.Violation {
 		return v
 	}
 	if err != nil {
+		if tok0 && k < ttail0 {
+			// Recoverable looks at the state history only; the trienode history has its
+			// own (shorter) retention and cannot be truncated below its tail
+			key := "recover-below-trienode-tail"
+			msg := fmt.Sprintf("Recover(state #%d, id %d; disk layer id %d) returned an error AFTER rolling the state back and truncating the state history: %v. Recoverable reported true (state history tail %d), but the trienode history (TrienodeHistory=%d, StateHistory=%d) is only retained from id %d on; its head stays above the disk layer id", st.idx, k, diskID, err, tail, rn.p.K.TrienodeHistory, rn.p.K.StateHistory, ttail0)
+			if simcore.IsKnown(key) || os.Getenv("PDB_ASSUME_KNOWN") != "" {
+				rn.mu.Lock()
+				rn.res.KnownHit(key)
+				rn.stop = true
+				rn.mu.Unlock()
+				return nil
+			}
+			return &simcore.Violation{Oracle: "recover-failed", Key: key, Msg: msg}
+		}
 		return simcore.Violf("recover-failed", "Recover(state #%d root %x, id %d; disk layer was id %d, tail %d) failed although Recoverable reported true: %v", st.idx, st.root[:4], k, diskID, tail, err)
 	}
 	rn.probe("recover-done")
@@ -151,7 +174,7 @@ func (rn *runner) recoverOne(st *state) *simcore.Violation {
 	if shead != k {
 		return simcore.Violf("history-not-truncated", "after Recover to id %d the state history head is %d", k, shead)
 	}
-	if tok && thead != k && thead != 0 {
+	if tok && thead != k {
 		return simcore.Violf("history-not-truncated", "after Recover to id %d the trienode history head is %d", k, thead)
 	}
 	// every key reads as the target state
